@@ -193,4 +193,3 @@ Fixpoint v6 (O : oracles) (w : wmode) (S : json) (v : json) {struct S} : bool :=
 
 Definition valid6_strict (O : oracles) := v6 O WNever.
 Definition valid6 (O : oracles) := v6 O WCode.
-EOF
